@@ -7,6 +7,8 @@
 package vsync
 
 import (
+	"runtime"
+	"strings"
 	"sync"
 
 	"github.com/f1bonacc1/process-compose/src/vrt"
@@ -281,8 +283,10 @@ func (c *Cond) Broadcast() {
 // ---------------------------------------------------------------- WaitGroup
 
 type WaitGroup struct {
-	wg sync.WaitGroup
-	n  int
+	wg       sync.WaitGroup
+	n        int
+	parked   int // Wait calls that arrived while the counter was positive and have not been released
+	released int // Wait calls released by the counter reaching zero that have not run on yet
 }
 
 func (w *WaitGroup) Add(delta int) {
@@ -295,8 +299,18 @@ func (w *WaitGroup) Add(delta int) {
 		vrt.Release(w)
 	}
 	s.Mu.Lock()
+	if delta > 0 && w.n == 0 && w.released > 0 {
+		// the real WaitGroup panics in the released waiter if it finds the counter positive again
+		// ("WaitGroup is reused before previous Wait has returned"); whether it does depends on how
+		// fast the waiter runs, which is exactly the schedule explored here
+		s.ReportMisuse("waitgroup-reused-before-wait-returned:" + callerFunc())
+	}
 	w.n += delta
 	neg := w.n < 0
+	if w.n == 0 {
+		w.released += w.parked
+		w.parked = 0
+	}
 	s.Mu.Unlock()
 	if neg {
 		panic("sync: negative WaitGroup counter")
@@ -311,8 +325,39 @@ func (w *WaitGroup) Wait() {
 		w.wg.Wait()
 		return
 	}
-	vrt.Point(&vrt.Op{Kind: "wgwait", Obj: w, Enabled: func() bool { return w.n == 0 }})
+	s.Mu.Lock()
+	waited := w.n > 0
+	if waited {
+		w.parked++
+	}
+	s.Mu.Unlock()
+	vrt.Point(&vrt.Op{Kind: "wgwait", Obj: w, Enabled: func() bool { return w.n == 0 },
+		Apply: func() {
+			if waited && w.released > 0 {
+				w.released--
+			}
+		}})
 	vrt.Acquire(w)
+}
+
+// callerFunc names the first function outside this package on the stack.
+func callerFunc() string {
+	pc := make([]uintptr, 8)
+	n := runtime.Callers(2, pc)
+	fr := runtime.CallersFrames(pc[:n])
+	for {
+		f, more := fr.Next()
+		if !strings.Contains(f.Function, "/vrt/vsync.") {
+			name := f.Function
+			if i := strings.LastIndex(name, "/"); i >= 0 {
+				name = name[i+1:]
+			}
+			return name
+		}
+		if !more {
+			return "?"
+		}
+	}
 }
 
 func (w *WaitGroup) Go(f func()) {
